@@ -424,8 +424,8 @@ var (
 // generator uses it to steer around that input class (and must count the
 // exclusion with CountExcluded) so the search continues behind the finding.
 func Open(key string) bool {
-	if os.Getenv("VERIF_REPLAY") != "" {
-		return false // a replayed tape is judged in full, nothing is steered around
+	if os.Getenv("VERIF_REPLAY") != "" && os.Getenv("VERIF_REPLAY_KEEP_EXCLUSIONS") == "" {
+		return false // a replayed tape is judged in full, nothing is steered around (diagnosis can keep the exclusions)
 	}
 	findingsOnce.Do(func() {
 		openKeys = map[string]bool{}
